@@ -99,6 +99,9 @@ static struct PTRef h_app(t_uchar kind, t_int n, t_u32 a0, t_u32 a1, t_u32 a2) {
   struct PTRef d[3]; d[0].x = a0; d[1].x = a1; d[2].x = a2; struct vec_PTRef v; v.data = d; v.sz = n; v.cap = 3; struct SymRef s; s.x = kind; return Logic__mkFun((void *)0, s, &v); }
 /* ---- callee contracts used when a constructor calls another one (modular: the callee's own job discharges exactly this postcondition) ---- */
 static struct PTRef h_by_contract(t_int den) { struct PTRef r = h_mk(K_ATOM, S_BOOL, den != 0); return r; }   /* some Boolean term with the stated denotation */
+#ifdef C14_USE_mkNot
+struct PTRef Logic__mkNot__PTRef(void *self, struct PTRef a) { __CPROVER_assert(nd(a)->sort == S_BOOL, "mkNot is given a Boolean term"); return h_by_contract(!den_of(a.x)); }
+#endif
 #ifdef C14_USE_mkOr
 struct PTRef Logic__mkOr__vec_PTRef_RR(void *self, struct vec_PTRef *args) { t_int n = args->sz; __CPROVER_assert(n >= 0 && n <= 3, "arena bound"); t_bool d = 0;
   for (t_int i = 0; i < 3; i++) if (i < n) { __CPROVER_assert(nd(args->data[i])->sort == S_BOOL, "mkOr is given Boolean terms"); d = d || den_of(args->data[i].x); } return h_by_contract(d); }
